@@ -715,6 +715,11 @@ func (ev *evaluator) call(e *Expr) Val {
 		if x.K == KSlice {
 			return intVal(sApp("s_cap", x.S))
 		}
+		if x.K == KRef {
+			// capacity of a channel (recorded where it is made)
+			r.facts.DeclareFun("chancap", []string{"Int"}, "Int")
+			return intVal(sApp("chancap", x.S))
+		}
 		ev.fail("cap of unsupported value")
 	case "base":
 		x := arg(0)
